@@ -112,7 +112,9 @@ P = {
  "C10": ("SM", "Theorems (Props/C10.v): WORKING->OUTAGE / TRANSIT->OUTAGE block for exactly the longest sampled active outage, durations "
          "non-negative, no outage when none is due, release makes every record inactive and remembers its own end time, an OUTAGE "
          "component accepts only the release transition; over whole runs: outside OUTAGE every record is inactive and active records "
-         "have start <= end in every reachable state and micro-state (C10_outage_records_*, SMP/Outages.v, no side condition). " + TIE),
+         "have start <= end in every reachable state and micro-state (C10_outage_records_*, SMP/Outages.v, no side condition); the "
+         "sampling clause the monitors evaluate on every outage-sampling transition (started exactly when due / with exactly the "
+         "configured duration for deterministic definitions) is proved true of the model's sampler (C10_sampling_clause_holds_of_the_model). " + TIE),
  "C11": ("SM", "Theorems (Props/C11.v; SMP/Offers): every offered transport/machine transition passes validation and names a ready job "
          "(offers_are_valid); over whole runs of every instance every offer of every "
          "reachable result is valid in the state it is offered in (C11_every_offer_is_valid_in_every_run_every_instance, SMP/OffersValid.v). "
